@@ -481,6 +481,22 @@ pub fn gen_project(r: &mut Prng, name: &str) -> GenProject {
     for i in 0..n_validators {
         files.push((format!("validators/v{i}.ak"), validator_module(r, &c, i)));
     }
+    // two validators sharing the same `expect` statements (same text => same compiler-generated
+    // trace-and-fail helper under compact / verbose) but FIRST USING them in a different order: what a
+    // re-used generator emits for the second must not depend on the first
+    let stmts = ["    expect Some(payload) = datum\n    expect n: Int = payload\n", "    expect action: Action = redeemer\n"];
+    let flip = r.chance(1, 2);
+    for (i, name) in ["sxa", "sxb"].iter().enumerate() {
+        let first_second = if (i == 0) ^ flip { (stmts[0], stmts[1]) } else { (stmts[1], stmts[0]) };
+        let cmp = if i == 0 { ">" } else { ">=" };
+        files.push((
+            format!("validators/{name}.ak"),
+            format!(
+                "use kit/helpers\nuse kit/types.{{Action}}\n\nvalidator {name} {{\n  spend(datum: Option<Data>, redeemer: Data, _oref: Data, _tx: Data) {{\n{}{}    helpers.apply_action(n, action) {cmp} n\n  }}\n\n  else(_) {{\n    fail\n  }}\n}}\n",
+                first_second.0, first_second.1
+            ),
+        ));
+    }
     GenProject { name: name.to_string(), files }
 }
 
